@@ -146,8 +146,16 @@ Definition taint_index_of_error (coords : list (bytes * bytes)) (root : bytes) (
 Fixpoint filter_map {A B} (g : A -> option B) (l : list A) : list B :=
   match l with [] => [] | x :: r => match g x with Some y => y :: filter_map g r | None => filter_map g r end end.
 
-(* getTaintedIndices as mergeResult calls it: only for a parsed response with a non-empty errors array *)
-Definition tainted_indices (vre : bool) (coords : list (bytes * bytes)) (f : fetch) (res : response) : list N :=
+(* getTaintedIndices as mergeResult calls it: only for a parsed response with a non-empty errors array.
+   [taint_data]: what the error paths are resolved against -- the selected response data, except that a single entity
+   fetch selects data._entities.0 while the paths still start at _entities (loader.go, commit 00d2cc7); before that
+   repair it was the selected data for every kind ([fixed = false]: a single EntityFetch never tainted anything). *)
+Definition taint_data (fixed : bool) (f : fetch) (resp : json) : option json :=
+  match f_kind f with
+  | FEntity => if fixed then get_loc [PName k_data; PName k_entities] resp else get_loc (f_datapath f) resp
+  | _ => get_loc (f_datapath f) resp
+  end.
+Definition tainted_indices_gen (fixed vre : bool) (coords : list (bytes * bytes)) (f : fetch) (res : response) : list N :=
   if negb vre || rs_err res then [] else
   match coords with
   | [] => []
@@ -157,7 +165,7 @@ Definition tainted_indices (vre : bool) (coords : list (bytes * bytes)) (f : fet
       if negb (valid_numbers resp) then [] else
       match get_loc [PName k_errors] resp with
       | Some (JArr ((_ :: _) as errs)) =>
-        match get_loc (f_datapath f) resp with
+        match taint_data fixed f resp with
         | Some data => filter_map (taint_index_of_error coords k_entities data) errs
         | None => []
         end
@@ -166,6 +174,8 @@ Definition tainted_indices (vre : bool) (coords : list (bytes * bytes)) (f : fet
     | _ => []
     end
   end.
+Definition tainted_indices := tainted_indices_gen true.
+Definition tainted_indices_v0 := tainted_indices_gen false.      (* HISTORICAL: before 00d2cc7 *)
 
 Definition mem_idx (i : N) (l : list N) : bool := existsb (N.eqb i) l.
 
@@ -248,10 +258,11 @@ Definition filter_tainted (T : list rpath) (items : list rpath) : list rpath :=
 Definition tstate := (lstate * list rpath)%type.
 
 (* mergeResult with the taint bookkeeping *)
-Definition merge_result_t (vre : bool) (coords : list (bytes * bytes)) (f : fetch) (res : response) (items : list rpath)
+Definition tindices := list (bytes * bytes) -> fetch -> response -> list N.   (* [tainted_indices vre], or the historical one *)
+Definition merge_result_t (tind : tindices) (coords : list (bytes * bytes)) (f : fetch) (res : response) (items : list rpath)
            (batch : option (list (list rpath))) (st : tstate) : tstate :=
   let '(s, T) := st in
-  let ti := tainted_indices vre coords f res in
+  let ti := tind coords f res in
   let s1 := match ti with [] => s | _ => add_error s LE_DEPS f end in     (* renderErrorsFailedDeps *)
   let s2 := merge_result f res items batch s1 in
   (s2, if ls_hard s2 then T else T ++ new_taints ti f res items batch s1).
@@ -259,7 +270,7 @@ Definition merge_result_t (vre : bool) (coords : list (bytes * bytes)) (f : fetc
 Section LoaderT.
   Variable St : Type.
   Variable exchange : St -> request -> response * St.
-  Variable vre : bool.                                   (* ValidateRequiredExternalFields *)
+  Variable tind : tindices.                              (* [tainted_indices vre]: vre = ValidateRequiredExternalFields *)
   Variable coords : N -> list (bytes * bytes).           (* fetch id -> (type, field) fetched for a nullable @requires *)
 
   Definition run_fetch_t (f : fetch) (sx : tstate * St) : tstate * St :=
@@ -272,7 +283,7 @@ Section LoaderT.
       let s := add_request (set_data s d) rq in
       let '(res, x') := exchange x rq in
       let s := if rs_err res then add_errored s (f_id f) else s in
-      (merge_result_t vre (coords (f_id f)) f res items batch (s, T), x')
+      (merge_result_t tind (coords (f_id f)) f res items batch (s, T), x')
     end.
 
   Fixpoint run_tree_t (t : ftree) (sx : tstate * St) : tstate * St :=
